@@ -26,3 +26,5 @@ one() {
 }
 export -f one
 if [ -n "$IDS" ]; then cat $IDS; else seq 0 $((N-1)); fi | xargs -P $W -I{} bash -c 'one {}' >> $OUT
+# every variant is built at a fresh path: the build cache grows by tens of GB over a sweep; drop it
+go clean -cache >/dev/null 2>&1
